@@ -770,8 +770,10 @@ class CompilerPassGenerateCode(CompilerPass):
         if test_data.is_constant:
             if test_data.constant_value:
                 emit_else = negate_test
+                emit_if = not negate_test
             else:
                 emit_if = negate_test
+                emit_else = not negate_test
         elif isinstance(test_node, nodes.Compare):
             left = self.compile_node(test_node.left)
             right = self.compile_node(test_node.ops[0][1])
